@@ -25,7 +25,7 @@ sys.path.insert(0, os.path.dirname(os.path.dirname(os.path.abspath(__file__))))
 import vlib  # noqa: E402
 
 PINS = {
-    "C11": ["C11_coverage_invariant", "C11_not_stranded", "C11_ordering"],
+    "C11": ["C11_coverage_invariant", "C11_not_stranded", "C11_ordering", "C11_handler_after_wake", "C11_publishes"],
     "C12": [],
     "C13": [],
     "C14": [],
